@@ -115,11 +115,13 @@ type solverDef struct {
 }
 
 var solvers = []solverDef{
-	{"z3-new", func(ms int) []string { return []string{"z3-new", "-in", "-smt2", fmt.Sprintf("-t:%d", ms)} }},
+	// NB: z3's soft timeout (-t) changes its internal strategy and made results depend on the
+	// timeout value; the limit is enforced from outside (process kill) instead.
+	{"z3-new", func(ms int) []string { return []string{"z3-new", "-in", "-smt2"} }},
 	{"cvc5", func(ms int) []string { return []string{"cvc5", "--lang=smt2", fmt.Sprintf("--tlimit=%d", ms), "-"} }},
-	{"z3", func(ms int) []string { return []string{"z3", "-in", "-smt2", fmt.Sprintf("-t:%d", ms)} }},
+	{"z3", func(ms int) []string { return []string{"z3", "-in", "-smt2"} }},
 	{"z3-new/noauto", func(ms int) []string {
-		return []string{"z3-new", "-in", "-smt2", fmt.Sprintf("-t:%d", ms), "smt.auto_config=false"}
+		return []string{"z3-new", "-in", "-smt2", "smt.auto_config=false"}
 	}},
 }
 
@@ -147,7 +149,7 @@ func runSolver(ctx context.Context, sd solverDef, script string, ms int, cfg *So
 		}
 	}
 	args := sd.args(ms)
-	cctx, cancel := context.WithTimeout(ctx, time.Duration(ms+2000)*time.Millisecond)
+	cctx, cancel := context.WithTimeout(ctx, time.Duration(ms)*time.Millisecond)
 	defer cancel()
 	cmd := exec.CommandContext(cctx, args[0], args[1:]...)
 	cmd.Stdin = strings.NewReader(text)
